@@ -200,6 +200,10 @@ def _run_calls(scn, tid, impl, conv, parser, orig_parse, captured, hostfns, name
         nvm_before = len(conv.vm)
         TRACER.start(conv, nodeids)
         n_enter0 = 0
+        streams = None
+        if AUDIT['on']:
+            streams = (sys.stdout, sys.stderr)
+            sys.stdout, sys.stderr = _StreamSpy('stdout', streams[0]), _StreamSpy('stderr', streams[1])
         try:
             try:
                 out_exc = None
@@ -213,6 +217,8 @@ def _run_calls(scn, tid, impl, conv, parser, orig_parse, captured, hostfns, name
                 if isinstance(e, (KeyboardInterrupt, SystemExit, MemoryError)):
                     raise
         finally:
+            if streams is not None:
+                sys.stdout, sys.stderr = streams
             evs = TRACER.stop()
         if out['t'] == 'ok':
             out['v'] = conv.deep(out_py)
@@ -364,6 +370,25 @@ def validate(cases, deviations, procs=16, timeout=700, coverage=False, keep=None
 
 
 AUDIT = {'on': False, 'events': [], 'installed': False}
+
+
+class _StreamSpy:
+    """Stands in for sys.stdout / sys.stderr while a program is evaluated under the audit: a write is recorded like an audit event."""
+
+    def __init__(self, name, real):
+        self._name = name
+        self._real = real
+
+    def write(self, text):
+        if text:
+            AUDIT['events'].append('stream.write:' + self._name)
+        return len(text)
+
+    def flush(self):
+        pass
+
+    def __getattr__(self, k):
+        return getattr(self._real, k)
 
 
 def _audit_hook(event, args):
